@@ -184,3 +184,16 @@ pvals = st.one_of(st.sampled_from([0.5, 0.1, 0.9, 0.01, 0.99, 0.95, 0.05]), st.f
 
 def loglam(lo, hi):
     return st.one_of(st.floats(lo, hi), st.sampled_from([float(lo), float(hi)]), st.floats(lo, lo + 1), st.floats(hi - 1, hi))
+
+
+# integer series whose lag-1 (mean-filled Pearson) correlation is exactly 1/2 in exact arithmetic (4 A^2 == Vx Vy) and whose
+# float64 evaluation is exact as well; a*x+b (a > 0) keeps that. Used to sit exactly on the 0.5 grid-selection threshold.
+EXACT_HALF_TEMPLATES = [[-3, 0, -1, 2, 2, 2], [-3, 0, 0, 0, 3, 2], [2, 3, 0, 0, 0, -3], [-2, -2, -2, 1, 0, 3], [-3, -3, -3, 0, -1, 2], [-2, 1, 0, 3, 3, 3]]
+
+
+@st.composite
+def exact_half_series(draw):
+    t = draw(st.sampled_from(EXACT_HALF_TEMPLATES))
+    a = draw(st.sampled_from([1, 2, 10, 100, 500]))
+    b = draw(st.integers(-2000, 2000))
+    return [a * v + b for v in t]
